@@ -174,6 +174,14 @@ func genC06Strlen(r *plan.Rng) *plan.Plan {
 		{"g11 := byt", "for i := 0; i < R; i++ {", "	g11 = g11 + str", "}", "g11b := bytes(string(g11) + str)"},
 		{"g12 := str[0:2] + str[1:] + string(str[0])", "g12b := byt[1:] + byt[:2]", "for i := 0; i < R; i++ {", "	g12 = g12 + g12[1:]", "}"},
 		{"g13 := error(str + str)", "g13b := string(g13)", "g13c := format(\"%v%v\", g13, g13)", "g13d := [g13b + g13b]"},
+		{"g15 := format(\"%x\", str)", "g15b := format(\"%X\", byt)"},
+		{"g16 := format(\"% x\", str)", "g16b := format(\"%#x\", byt)", "g16c := format(\"% #X\", str + str)"},
+		{"g17 := format(\"%-\" + string(R * 9 + 1) + \"d\", n)", "g17b := format(\"%-\" + string(R * 9 + 1) + \"s\", str)"},
+		{"g18 := format(\"%-\" + string(R * 7 + 1) + \"v\", arr)", "g18b := format(\"%-\" + string(R * 7 + 1) + \"q\", str)", "g18c := format(\"%-\" + string(R * 7 + 1) + \"x\", str)"},
+		{"g19 := format(\"%\" + string(R * 9 + 1) + \"d\", n)", "g19b := format(\"%0\" + string(R * 9 + 1) + \"x\", n)", "g19c := format(\"%\" + string(R * 9 + 1) + \"x\", byt)"},
+		{"g20 := format(\"%c%c%c\", chr, chr, chr)", "g20b := format(\"%U\", chr)", "g20c := format(\"%q\", chr)", "g20d := format(\"%s\", byt)", "g20e := format(\"%e|%g\", fl, fl)", "g20f := format(\"%+d|%t|%v\", n, true, undefined)"},
+		{"g21 := format(\"%[2]*[1]d\", n, R * 6 + 1)", "g21b := format(\"%.*f\", R, fl)", "g21c := format(\"%-*d\", R * 6 + 1, n)"},
+		{"g22 := format(\"%v\", [str, [str, byt], {k: str}])", "g22b := format(\"%s\", error(str + str))", "g22c := format(\"%d\", [n, n, n])"},
 		{"g14 := string(n * 1000000) + string(fl) + string(true) + string(undefined)", "g14b := format(\"%t|%c|%U\", true, chr, chr)"},
 	}
 	n := r.Range(1, 3)
